@@ -605,14 +605,9 @@ example : Audit midModel :=
 example : (exec machine d18 5 (Run.init dangling 1 1) (.acts [.emit 0 0 0])).bad = true := rfl
 
 /-
-  OPEN: a model that re-uses object ids.  `Run.prim` gives a re-created object (`newL` / `newE`) an id never used before,
-  while the allocator may hand out the address of a destroyed object.  Wanted: an evaluator `execR` whose `newL` / `newE`
-  revive the old id, and the theorem that for every program its log and (up to the renaming of the revived ids) its
-  bookkeeping equal those of `exec` — i.e. a simulation `R_ρ` between two copies of `machine` that relates live ids by a
-  partial bijection `ρ` and leaves the receiver/object fields of `disconnected` entries, keys with empty lists and the
-  data of invalidated frames unconstrained.  Proved towards it: `stale_mentions_are_dead_data` (these are the only
-  places a destroyed id occurs, in every reachable state).  Missing: the nine preservation lemmas for `R_ρ`.  The
-  real code is driven through exact address reuse on every run (`reuse` lines: all programs that re-create an object).
+  Address reuse (a re-created Listener / Emitter at the address of its predecessor): see PropsReuse.lean — the model with
+  re-used LISTENER ids refines the specification (`reuse_listener_refines_spec`), no loop reads the stale fields
+  (`stale_receiver_never_read`); OPEN there: emitter ids, and the specification with vs without reuse.
 -/
 
 end Nstd.Callback
